@@ -14,7 +14,7 @@ from ..rng import Streams, weighted
 
 ID = 'C09'
 LEVEL = 'exploration'
-TIERS = {'quick': 4000, 'thorough': 150000}
+TIERS = {'quick': 8000, 'thorough': 300000}
 RULE = ('seeded expression/statement shapes (<= ~30 nodes) over every node kind with operands (binary operators, '
         'and/or/if-else nests, call/method/pipe argument lists, list and dict literals, all slice forms, index, '
         'assignment, compound assignment, index assignment and compound index assignment, del, lambda bodies '
